@@ -311,6 +311,9 @@ def check_document(ctx, pm, Dc):
     collide = bool(m.colliding_pairs())
     ctx.count("doc-%s-%s" % (version, "collision" if collide else "clean"))
     doc = render_doc(pool, placement, version)
+    if len(placement) % 2 == 0:
+        from rv import formats as _formats
+        doc = _formats.shuffle_keys(doc, random.Random(len(json.dumps(doc))))
     try:
         im = pm.Images()
         im.loads(json.dumps(doc))
